@@ -25,8 +25,8 @@ func Load(env types.EnvType) {
 	call.CallOverrideFN(env, "reset!", reset_BANG)
 	call.Call(env, future_call)
 	call.Call(env, future_cancel)
-	call.CallOverrideFN(env, "future-cancelled?", func(f *Future) (bool, error) { return f.Cancelled, nil })
-	call.CallOverrideFN(env, "future-done?", func(f *Future) (bool, error) { return f.Done, nil })
+	call.CallOverrideFN(env, "future-cancelled?", func(f *Future) (bool, error) { return f.IsCancelled(), nil })
+	call.CallOverrideFN(env, "future-done?", func(f *Future) (bool, error) { return f.IsDone(), nil })
 	call.CallOverrideFN(env, "future?", func(f MalType) (bool, error) { return Q[*Future](f), nil })
 	call.Call(env, new_future_call)
 }
@@ -127,6 +127,7 @@ type Future struct {
 	ValChan    chan MalType
 	ErrChan    chan error
 	CancelFunc context.CancelFunc
+	mu         sync.Mutex // guards Done and Cancelled
 	Done       bool
 	Cancelled  bool
 
@@ -148,7 +149,6 @@ func NewFuture(ctx context.Context, fn MalFunc) *Future {
 		Fn:         fn,
 	}
 	go func() {
-		defer func() { f.Done = true }()
 		verifAt("future.start", f)
 		res, err := func() (res MalType, err error) {
 			defer func() {
@@ -162,6 +162,11 @@ func NewFuture(ctx context.Context, fn MalFunc) *Future {
 			}()
 			return Apply(ctx, fn, nil)
 		}()
+		// done is published BEFORE the outcome: once any deref has returned, future-done? is true,
+		// and a cancel that arrives after completion finds the future done
+		f.mu.Lock()
+		f.Done = true
+		f.mu.Unlock()
 		if err != nil {
 			f.ErrChan <- err
 			verifAt("future.delivered", f)
@@ -174,7 +179,23 @@ func NewFuture(ctx context.Context, fn MalFunc) *Future {
 	return f
 }
 
+// IsDone reports whether the body has finished or the future was cancelled.
+func (f *Future) IsDone() bool {
+	f.mu.Lock()
+	defer f.mu.Unlock()
+	return f.Done
+}
+
+// IsCancelled reports whether the future was cancelled before it completed.
+func (f *Future) IsCancelled() bool {
+	f.mu.Lock()
+	defer f.mu.Unlock()
+	return f.Cancelled
+}
+
 func (f *Future) Cancel() bool {
+	f.mu.Lock()
+	defer f.mu.Unlock()
 	if !f.Done {
 		verifAt("cancel.checked", f)
 		f.Cancelled = true
